@@ -33,6 +33,7 @@ type Program struct {
 	cg        *callgraph.Graph
 	chaCG     *callgraph.Graph
 	LoadSecs  float64
+	Renames   []string // "new is old renamed" notes
 	BuildTags string
 }
 
@@ -135,6 +136,7 @@ func Load(dir string, tags string, env []string) (*Program, error) {
 		}
 	}
 	sort.Slice(p.OwnFuncs, func(i, j int) bool { return FuncKey(p.OwnFuncs[i]) < FuncKey(p.OwnFuncs[j]) })
+	p.Renames = p.applyRenames()
 	p.LoadSecs = time.Since(t0).Seconds()
 	return p, nil
 }
@@ -155,14 +157,81 @@ func FuncKey(fn *ssa.Function) string {
 		return FuncKey(fn.Parent()) + "$" + strings.TrimPrefix(fn.Name(), fn.Parent().Name()+"$")
 	}
 	if recv := fn.Signature.Recv(); recv != nil {
-		return pkg + ".(" + types.TypeString(recv.Type(), func(*types.Package) string { return "" }) + ")." + fn.Name()
+		return pkg + ".(" + types.TypeString(recv.Type(), func(*types.Package) string { return "" }) + ")." + fnName(fn)
 	}
-	return pkg + "." + fn.Name()
+	return pkg + "." + fnName(fn)
 }
 
 // Fn resolves an anchor. A missing anchor makes the run undecided.
 func (p *Program) Fn(key string) *ssa.Function {
 	return p.Funcs[key]
+}
+
+// funcGroup: "pkg/path.(*T)" for methods, "pkg/path" for plain functions.
+func funcGroup(key string) string {
+	if i := strings.LastIndex(key, ")."); i >= 0 {
+		return key[:i+1]
+	}
+	if i := strings.LastIndex(key, "."); i >= 0 {
+		return key[:i]
+	}
+	return key
+}
+
+// oldName: functions of the reference table that live on under another name, with the
+// name the table (and therefore every rule) knows them by.
+var oldName = map[*ssa.Function]string{}
+
+func fnName(fn *ssa.Function) string {
+	if n, ok := oldName[fn]; ok {
+		return n
+	}
+	return fn.Name()
+}
+
+// applyRenames: when, among the functions with the same receiver (or the plain functions
+// of one package), exactly one entry of the reference table has disappeared and exactly one
+// function is new, the new one is the old one renamed. From then on it is called by its old
+// name everywhere (FuncKey, FuncName, callee names), so anchors and callee matches hold.
+func (p *Program) applyRenames() []string {
+	if len(knownFuncsTxt) < 100 {
+		return nil
+	}
+	knownFunc("")
+	missing := map[string][]string{}
+	for k := range knownFuncs {
+		if strings.Contains(k, "$") {
+			continue
+		}
+		if _, ok := p.Funcs[k]; !ok {
+			missing[funcGroup(k)] = append(missing[funcGroup(k)], k)
+		}
+	}
+	fresh := map[string][]*ssa.Function{}
+	for k, fn := range p.Funcs {
+		if strings.Contains(k, "$") || fn.Synthetic != "" || knownFunc(k) || !IsProd(fn) || fn.Parent() != nil {
+			continue
+		}
+		fresh[funcGroup(k)] = append(fresh[funcGroup(k)], fn)
+	}
+	var notes []string
+	for g, ms := range missing {
+		if len(ms) == 1 && len(fresh[g]) == 1 {
+			old := ms[0]
+			fn := fresh[g][0]
+			notes = append(notes, FuncKey(fn)+" is "+old+" renamed")
+			oldName[fn] = old[strings.LastIndex(old, ".")+1:]
+		}
+	}
+	if len(oldName) > 0 {
+		p.Funcs = map[string]*ssa.Function{}
+		for _, fn := range p.OwnFuncs {
+			p.Funcs[FuncKey(fn)] = fn
+		}
+		sort.Slice(p.OwnFuncs, func(i, j int) bool { return FuncKey(p.OwnFuncs[i]) < FuncKey(p.OwnFuncs[j]) })
+	}
+	sort.Strings(notes)
+	return notes
 }
 
 func (p *Program) Pos(pos token.Pos) string {
@@ -302,15 +371,15 @@ func FuncName(fn *ssa.Function) string {
 	}
 	q := func(p *types.Package) string { return relPkgName(p) }
 	if recv := fn.Signature.Recv(); recv != nil {
-		return "(" + types.TypeString(recv.Type(), q) + ")." + fn.Name()
+		return "(" + types.TypeString(recv.Type(), q) + ")." + fnName(fn)
 	}
 	if fn.Pkg != nil && fn.Pkg.Pkg != nil {
-		return relPkgName(fn.Pkg.Pkg) + "." + fn.Name()
+		return relPkgName(fn.Pkg.Pkg) + "." + fnName(fn)
 	}
 	if o := fn.Origin(); o != nil && o.Pkg != nil {
-		return relPkgName(o.Pkg.Pkg) + "." + fn.Name()
+		return relPkgName(o.Pkg.Pkg) + "." + fnName(fn)
 	}
-	return fn.Name()
+	return fnName(fn)
 }
 
 // FileOf returns the syntax file containing pos.
